@@ -25,9 +25,9 @@ HARNESSES = {
     "c03": [("w_c13", None)],
     "c18": [("w_c12", ["check_add_value_linear", "check_add_value_hh", "check_update_dict_linear", "check_update_dict_hh"])],
     "c19": [("w_c08", ["check_c19_callback_raises_w1", "check_c19_callback_raises_w2", "check_c19_dead_worker", "check_c19_dead_worker_late", "check_c19_dead_worker_backlog"])],
-    "c01": [("w_c12", ["check_add_value_linear", "check_update_dict_linear", "check_update_list_linear", "check_ngram_linear"]), ("w_c15", ["check_linear"])],
+    "c01": [("w_c12", ["check_add_value_linear", "check_update_dict_linear", "check_update_list_linear", "check_ngram_linear"]), ("w_c15", ["check_linear"]), ("w_c16", ["check_linear"])],
     "c09": [("w_c15", ["check_linear", "check_log16", "check_log8"])],
-    "c05": [("w_c12", ["check_add_value_linear", "check_add_value_log16", "check_add_value_log8"])],
+    "c05": [("w_c12", ["check_add_value_linear", "check_add_value_log16", "check_add_value_log8"]), ("w_c16", ["check_linear", "check_log16", "check_log8"])],
     "c17": [("w_c17", None)],
     "c02": [("w_c17", ["check_query_current"]), ("w_c12", ["check_update_list_hll", "check_add_value_hll", "check_update_dict_hll", "check_ngram_hll"])],
     "c06": [("w_c12", ["check_add_value_log16", "check_add_value_log8", "check_ngram_log16", "check_ngram_log8", "check_log_ctor"])],
